@@ -46,6 +46,19 @@ func (refusingTransport) RoundTrip(*http.Request) (*http.Response, error) {
 	return nil, errors.New("verif: no network in this test")
 }
 
+// recordingTransport refuses every request too, and remembers which URLs were asked for.
+type recordingTransport struct {
+	mu   sync.Mutex
+	seen map[string]bool
+}
+
+func (t *recordingTransport) RoundTrip(r *http.Request) (*http.Response, error) {
+	t.mu.Lock()
+	t.seen[r.URL.String()] = true
+	t.mu.Unlock()
+	return nil, errors.New("verif: no network in this test")
+}
+
 // configChild runs the real omniwitness.Main on a configuration for a moment and reports how start-up ended.
 // A panic in any goroutine kills this process (exit status 2), which the parent records as "panicked".
 func configChild(args []string) error {
@@ -73,10 +86,18 @@ func configChild(args []string) error {
 	// every optional component is switched on (the REST distributor and the bastion connection, both pointed at an address nobody listens on):
 	// the configuration has to be usable by all of them
 	bseed := sha256.Sum256([]byte("verif config child bastion key"))
+	rt := &recordingTransport{seen: map[string]bool{}}
+	defer func() {
+		rt.mu.Lock()
+		for u := range rt.seen {
+			say("POLLED %s", u)
+		}
+		rt.mu.Unlock()
+	}()
 	merr := omniwitness.Main(ctx, omniwitness.OperatorConfig{WitnessKeys: signers, WitnessVerifier: witV, FeedInterval: 100 * time.Millisecond,
 		RestDistributorBaseURL: "http://127.0.0.1:1", DistributeInterval: 100 * time.Millisecond,
 		BastionAddr: "127.0.0.1:1", BastionKey: ed25519.NewKeyFromSeed(bseed[:]), BastionRateLimit: 10},
-		inmemory.NewPersistence(), ln, &http.Client{Transport: refusingTransport{}, Timeout: time.Second})
+		inmemory.NewPersistence(), ln, &http.Client{Transport: rt, Timeout: time.Second})
 	if merr == nil || errors.Is(merr, context.DeadlineExceeded) || errors.Is(merr, context.Canceled) || errors.Is(merr, http.ErrServerClosed) {
 		say("RESULT serving")
 	} else {
@@ -86,27 +107,46 @@ func configChild(args []string) error {
 }
 
 func runConfigChild(self, yamlPath string) (string, string) {
+	o, d, _ := runConfigChildEnv(self, yamlPath)
+	return o, d
+}
+
+// runConfigChildEnv also returns the URLs the feeders (and the distributor) asked for while Main ran; env is added to the child's environment
+// (GOMAXPROCS=1: the single-core devices the witness is deployed on).
+func runConfigChildEnv(self, yamlPath string, env ...string) (string, string, []string) {
+	o, d, out := runConfigChildRaw(self, yamlPath, env...)
+	var polled []string
+	for _, l := range strings.Split(out, "\n") {
+		if strings.HasPrefix(l, "POLLED ") {
+			polled = append(polled, strings.TrimPrefix(l, "POLLED "))
+		}
+	}
+	return o, d, polled
+}
+
+func runConfigChildRaw(self, yamlPath string, env ...string) (string, string, string) {
 	args := []string{"config-child"}
 	if yamlPath != "" {
 		args = append(args, "-yaml", yamlPath)
 	}
 	cmd := exec.Command(self, args...)
+	cmd.Env = append(os.Environ(), env...)
 	var out bytes.Buffer
 	cmd.Stdout = &out
 	cmd.Stderr = &out
 	err := cmd.Run()
 	for _, l := range strings.Split(out.String(), "\n") {
 		if strings.HasPrefix(l, "RESULT serving") {
-			return "serving", ""
+			return "serving", "", out.String()
 		}
 		if strings.HasPrefix(l, "RESULT failed") {
-			return "failed", l
+			return "failed", l, out.String()
 		}
 	}
 	if err != nil && strings.Contains(out.String(), "panic:") {
-		return "panicked", firstLine(out.String(), "panic:")
+		return "panicked", firstLine(out.String(), "panic:"), out.String()
 	}
-	return "crashed", out.String()
+	return "crashed", out.String(), out.String()
 }
 
 func firstLine(s, prefix string) string {
@@ -147,6 +187,8 @@ type startEvent struct {
 	MapIDs         []string   `json:"mapids"`
 	LogIDs         []string   `json:"logids"`
 	Main           string     `json:"main"`
+	// Unpolled: logs with a feeder whose URL nobody asked for while Main ran (per environment of the child: default, GOMAXPROCS=1, GOMAXPROCS=2)
+	Unpolled []string `json:"unpolled"`
 	Entries        []cfgEntry `json:"entries,omitempty"`
 	Outcome        string     `json:"outcome,omitempty"`
 	Detail         string     `json:"detail,omitempty"`
@@ -165,7 +207,7 @@ type idEvent struct {
 
 // checkShipped walks a configuration through the same functions Main uses, one step at a time.
 func checkShipped(self, name string, data []byte, yamlPath string) startEvent {
-	ev := startEvent{E: "start.shipped", Run: name, File: name, BadKeys: []string{}, UnknownFeeders: []string{}, FeederFailed: []string{}, FeederPanicked: []string{},
+	ev := startEvent{E: "start.shipped", Run: name, File: name, BadKeys: []string{}, UnknownFeeders: []string{}, FeederFailed: []string{}, Unpolled: []string{}, FeederPanicked: []string{},
 		FeederIDs: []string{}, MapIDs: []string{}, LogIDs: []string{}}
 	cfg := omniwitness.LogConfig{}
 	if err := yaml.Unmarshal(data, &cfg); err != nil {
@@ -214,7 +256,35 @@ func checkShipped(self, name string, data []byte, yamlPath string) startEvent {
 	}
 	sort.Strings(ev.MapIDs)
 	ev.DistinctIDs = len(ids)
-	ev.Main, ev.Detail = runConfigChild(self, yamlPath)
+	// Main itself, as a child process, in the environments it is deployed in: as many cores as this machine has, two, one
+	ev.Unpolled = []string{}
+	for _, env := range []string{"", "GOMAXPROCS=2", "GOMAXPROCS=1"} {
+		main, detail, polled := runConfigChildEnv(self, yamlPath, strings.Fields(env)...)
+		if ev.Main == "" || main != "serving" {
+			ev.Main, ev.Detail = main, detail
+		}
+		if main != "serving" {
+			continue
+		}
+		for _, l := range cfg.Logs {
+			if l.Feeder == omniwitness.None || l.Feeder == 0 {
+				continue
+			}
+			base := strings.TrimRight(l.URL, "/")
+			if i := strings.Index(base, "?"); i >= 0 {
+				base = strings.TrimRight(base[:i], "/")
+			}
+			hit := false
+			for _, u := range polled {
+				if strings.HasPrefix(u, base) {
+					hit = true
+				}
+			}
+			if !hit {
+				ev.Unpolled = append(ev.Unpolled, fmt.Sprintf("%s (%s) [%s]", l.Origin, l.URL, env))
+			}
+		}
+	}
 	return ev
 }
 
@@ -395,7 +465,7 @@ func configMain(args []string) error {
 		events = append(events, checkShipped(self, "logs_test.yaml", b, tpath))
 	} else {
 		events = append(events, startEvent{E: "start.shipped", Run: "logs_test.yaml", Detail: err.Error(), BadKeys: []string{}, UnknownFeeders: []string{"file missing"},
-			FeederFailed: []string{}, FeederPanicked: []string{}, FeederIDs: []string{}, MapIDs: []string{}, LogIDs: []string{}})
+			FeederFailed: []string{}, Unpolled: []string{}, FeederPanicked: []string{}, FeederIDs: []string{}, MapIDs: []string{}, LogIDs: []string{}})
 	}
 	// origins of the shipped configuration on every interface
 	w := world.New(world.Params{Logs: []string{"l1"}, MaxSize: 1, NBranch: 1, MaxLines: 6, NWitKeys: 2, Seed: 1, RunTag: "cfg"})
@@ -430,7 +500,7 @@ func configMain(args []string) error {
 				outcome, detail := runConfigChild(self, yp)
 				os.Remove(yp)
 				res[i] = startEvent{E: "start.generated", Run: fmt.Sprintf("g%d", i), K: i, Entries: g.Entries, Outcome: outcome, Detail: detail,
-					BadKeys: []string{}, UnknownFeeders: []string{}, FeederFailed: []string{}, FeederPanicked: []string{}, FeederIDs: []string{}, MapIDs: []string{}, LogIDs: []string{}}
+					BadKeys: []string{}, UnknownFeeders: []string{}, FeederFailed: []string{}, Unpolled: []string{}, FeederPanicked: []string{}, FeederIDs: []string{}, MapIDs: []string{}, LogIDs: []string{}}
 			}(i, g)
 		}
 		wg.Wait()
